@@ -301,6 +301,16 @@ func (m *SimpleMVCC) GetV(key []byte, version int64) ([]byte, error) {
 	if err != nil {
 		return nil, err
 	}
+	// records of longer keys ("key.xxx") share the prefix and sort between the versions of key.
+	// They are longer than any record of key: skip them and seek on from their truncation,
+	// which is not below any record of key that is below the skipped one.
+	for len(vals[0]) > len(search) {
+		search = vals[0][:len(search)]
+		vals, err = m.kvdb.List(prefix, search, 1, ListSeek)
+		if err != nil {
+			return nil, err
+		}
+	}
 	k := vals[0]
 	val := vals[1]
 	v, err := getVersion(k)
